@@ -39,10 +39,10 @@ def plan(tier, seed):
             U += u(c, 'exh_canon_sample', 1, frac=0.35)
             U += u(c, 'sparse', 1, count=20, cap=4, perm=1.0)
         for c in d3:
-            U += u(c, 'random', 1, count=14, cap=8)
+            U += u(c, 'random', 1, count=30, cap=8)
         for c in gen.pqr_all(4, 4)[::2] + rng.sample(gen.pqr_all(5, 5), 4):
             U += u(c, 'gradeblocks', 1, count=8, cap=10)
-            U += u(c, 'sparse', 1, count=14, cap=6)
+            U += u(c, 'sparse', 1, count=30, cap=6)
         for c in rng.sample(gen.pqr_all(6, 6), 2) + [{'signature': gen.random_sig(rng, 7)}]:
             U += u(c, 'sparse', 1, count=14, cap=5)
         for _ in range(12):
